@@ -195,7 +195,8 @@ def run_trace(case):
         tk.update()
         fo.update()
         X0, Y0 = st.X.copy(), st.Y.copy()
-        if X0.min() < 3.0 or X0.max() > g.imax - 4.0 or Y0.min() < 3.0 or Y0.max() > g.jmax - 4.0:
+        cx, cy = (p["xc"], p["yc"])
+        if np.abs(X0 - cx).max() > 9.0 or np.abs(Y0 - cy).max() > 7.5:
             break  # divergent fields (saddle, x*t) carry the lattice towards the edge after a few large steps: the interior scenario ends here
         dx, dy = g.metric(X0, Y0)
         fo.queries.clear()
